@@ -8,7 +8,7 @@
          (links: "_" or the Link header lines joined by ',')
      W <U|S|N> <cbunsupp> <tsfound> <tssize> <tsitems> <the fields of a C line>   Repository.Referrers
          (ttext "!" = the response has no resolvable link target; tpath "!" = net/url rejects it)
-     S <T|K|R> <L items> <cap> <path> <query> <m> <extra query> <filter> <fhdr> <fann>
+     S <T|K|R> <L items> <cap> <path> <query> <m> <extra query> <filter> <fhdr> <fann> <cursor key|-> <cursor salt> <hidden names>
      L <cmp> <header>          parseLink extraction
      F <applied> <requested>   isReferrersFilterApplied
      FR <items> <at>           filterReferrers
@@ -122,10 +122,13 @@ let () =
         (List.length w.w_pages) (tok_of_pages w.w_pages) (out_name w.w_out)
         (if w.w_fell_back then 1 else 0)
         (match w.w_state with RUnknown -> "U" | RSupported -> "S" | RUnsupported -> "N")
-    | [id; "S"; kd; its; cap; path; q; m; extra; flt; fh; fa] ->
+    | [id; "S"; kd; its; cap; path; q; m; extra; flt; fh; fa; ck; salt; hidden] ->
       let d = { d_m = nat_of_int (int_of_string m); d_extra = query_of_tok extra; d_filter = bool_tok flt;
                 d_fhdr = str_of_hex fh; d_fann = str_of_hex fa; d_doc_len = N0; d_pad = N0 } in
-      let ((items, more), lq) = reg_page (kind_of_tok kd) (items_of_tok its) (nat_of_int (int_of_string cap))
+      let cu = if ck = "-" then CLast else CToken (str_of_hex ck, str_of_hex salt) in
+      let hid = strs_of_tok hidden in
+      let vis it = not (List.mem (fst it) hid) in
+      let ((items, more), lq) = reg_page (kind_of_tok kd) cu vis (items_of_tok its) (nat_of_int (int_of_string cap))
           { u_path = str_of_hex path; u_query = query_of_tok q } d in
       Printf.printf "%s %s %d %s\n" id (tok_of_items items) (if more then 1 else 0)
         (if more then tok_of_query lq else "_")
